@@ -1,4 +1,4 @@
-use std::{fmt, marker::PhantomData, num::NonZero, rc::Rc};
+use std::{cmp, fmt, marker::PhantomData, num::NonZero, rc::Rc};
 
 use ntex_io::IoBoxed;
 use ntex_net::connect::{self, Address, Connector};
@@ -158,7 +158,8 @@ where
                     // server keep-alive
                     let keep_alive = pkt.server_keepalive_sec.unwrap_or(keep_alive);
 
-                    shared.set_cap(pkt.receive_max.get() as usize);
+                    // outbound receive max
+                    shared.set_cap(cmp::min(self.cfg.max_send, pkt.receive_max.get()) as usize);
 
                     Ok(Client::new(
                         io,
